@@ -236,7 +236,9 @@ def evaluate(case):
 def cases(tier, seed):
     thorough = tier == "thorough"
     taus, Ms, pis = [60.0, 180.0], [1e3, 5e4], [6000.0, 9000.0]
-    devs = [(1.0, 1.0, 1.0), (1.3, 0.8, 1.05), (0.6, 2.0, 1.0)]
+    # last one: an initial pressure a few parts per million away from the previous call's (a simplex that has
+    # contracted, a refit with a refined pressure) - must be evaluated at ITS pressure, not the neighbour's
+    devs = [(1.0, 1.0, 1.0), (1.3, 0.8, 1.05), (0.6, 2.0, 1.0), (1.0, 1.0, 1.000004)]
     if seed:
         o = seed_offset(seed)
         taus.append(round(40 + 200 * o, 1))
